@@ -86,3 +86,35 @@ def loops_around(fn, nid, R):
         elif n['k'] in ('WhileStmt', 'DoStmt'):
             out.append({'name': None, 'bound': None, 'kind': 'other', 'node': p})
     return out
+
+
+def descending_for(fn, fid):
+    """for (T i = START; i > 0; --i) with i not otherwise modified  ->  dict(var, name, start node, body) or None"""
+    n = fn.nodes[fid]
+    if n['k'] != 'ForStmt' or 'init' not in n or 'cond' not in n or 'inc' not in n:
+        return None
+    init = fn.nodes[n['init']]
+    if init['k'] != 'DeclStmt' or len(init['decls']) != 1 or 'init' not in init['decls'][0]:
+        return None
+    d = init['decls'][0]
+    cond = fn.nodes[fn.strip(n['cond'], 'all')]
+    if cond['k'] != 'BinaryOperator':
+        return None
+    l = fn.nodes[fn.strip(cond['ch'][0], 'all')]
+    r = fn.nodes[fn.strip(cond['ch'][1], 'all')]
+    ok = False
+    if l['k'] == 'DeclRefExpr' and l['decl'].get('id') == d['id'] and ((cond['op'] in ('>', '!=') and r.get('cv') == '0') or (cond['op'] == '>=' and r.get('cv') == '1')):
+        ok = True
+    if r['k'] == 'DeclRefExpr' and r['decl'].get('id') == d['id'] and ((cond['op'] in ('<', '!=') and l.get('cv') == '0') or (cond['op'] == '<=' and l.get('cv') == '1')):
+        ok = True
+    if not ok or d.get('tc') != 'u':
+        return None
+    inc = fn.nodes[fn.strip(n['inc'], 'all')]
+    if not (inc['k'] == 'UnaryOperator' and inc['op'] == '--'):
+        return None
+    iv = fn.nodes[fn.strip(inc['ch'][0], 'all')]
+    if not (iv['k'] == 'DeclRefExpr' and iv['decl'].get('id') == d['id']):
+        return None
+    if loop_var_modified_in(fn, d['id'], fn.descendants(n['body'])):
+        return None
+    return {'var': d['id'], 'name': d['name'], 'start': d['init'], 'body': n['body'], 'for': fid}
